@@ -45,6 +45,21 @@ pub fn run(ctx: &Ctx) -> Report {
         for s in c03::sealings(0) {
             let mut ops = l.clone();
             ops.extend(s);
+            // the same program with the builder looked at (byte_len / build / write_into) after every
+            // operation, and, for every eighth list, looked at once at each single position
+            let mut all = Vec::new();
+            for o in &ops {
+                all.push(o.clone());
+                all.push(Op::Measure);
+            }
+            cases.push(Prog { class: (i % 4) as u8, method: 1, tid: tid0, ops: all }.to_case("builder"));
+            if i % 8 == 0 {
+                for pos in 0..=ops.len() {
+                    let mut one = ops.clone();
+                    one.insert(pos, Op::Measure);
+                    cases.push(Prog { class: (i % 4) as u8, method: 1, tid: tid0, ops: one }.to_case("builder"));
+                }
+            }
             cases.push(Prog { class: (i % 4) as u8, method: 1, tid: tid0, ops }.to_case("builder"));
         }
     }
@@ -74,7 +89,7 @@ pub fn run(ctx: &Ctx) -> Report {
     Report {
         acc,
         exhaustive: true,
-        rule: "every encode-side value and every representable byte-lane-walk value of all 19 attribute types and raw attributes of every length 0..=763, each written into destinations of every size 0..=padded+16; builders of the C03 family (+ interleaved into_owned/clone), each written into destinations of every size 0..=len+16; distinct_nontrivial = value/builder cases that could be constructed".into(),
+        rule: "every encode-side value and every representable byte-lane-walk value of all 19 attribute types and raw attributes of every length 0..=763, each written into destinations of every size 0..=padded+16; builders of the C03 family (+ interleaved into_owned/clone; + the builder measured and serialised after every operation / at each single position), each written into destinations of every size 0..=len+16; distinct_nontrivial = value/builder cases that could be constructed".into(),
         bounds: json!({"attribute_value_cases": n_attr, "builder_cases": n_all - n_attr, "dest_sizes": "0..=needed+16"}),
         assumptions: vec![],
         ..Default::default()
